@@ -377,13 +377,34 @@ func (w *Health) runChecker(uniq string) {
 	}
 	// the host set is replaced while the checks run (a cluster update rebuilds every host object): the
 	// address stays, so its run of consecutive results goes on
+	readdChanged := ""
+	var readdAt time.Duration = -1 // the host was taken out of the checker's host set for a while and added again at this instant
 	if ch.Bool("work", "hostset_replaced") {
 		at := time.Duration(ch.Pick("work", "replace_at", int(total/time.Millisecond)))*time.Millisecond + 700*time.Microsecond
 		s.Faults["w:host_set_replaced_during_checks"]++
+		gap := time.Duration(0)
+		if ch.Chance("work", "hostset_gap", 1, 3) {
+			// ... or the address leaves the host set and comes back a little later: a new session starts counting
+			// from nothing, the condition the old one had set stays until the new one has seen enough successes
+			gap = time.Duration(1+ch.Pick("work", "hostset_gap_ms", 40)) * time.Millisecond
+			readdAt = s.Now() + at + gap
+			s.Faults["w:host_left_and_came_back_during_checks"]++
+		}
 		go func() {
 			time.Sleep(at)
+			if gap > 0 {
+				hc.SetHealthCheckerHostSet(cluster.NewHostSet([]types.Host{}))
+				time.Sleep(gap)
+			}
 			again := cluster.NewSimpleHost(v2.Host{HostConfig: v2.HostConfig{Address: host.AddressString()}}, info)
+			before, fb := host.Health(), host.HealthFlag()
 			hc.SetHealthCheckerHostSet(cluster.NewHostSet([]types.Host{again}))
+			if after := host.Health(); gap > 0 && after != before {
+				// (same goroutine, no check has run in between: taking a host into the set is not a check result)
+				cbmu.Lock()
+				readdChanged = fmt.Sprintf("healthy=%v (flags %#x) right before the address was added to the checker's host set again, healthy=%v (flags %#x) right after", before, fb, after, host.HealthFlag())
+				cbmu.Unlock()
+			}
 		}()
 	}
 	// let the scripted checks run: each takes at most timeout+interval(+jitter)
@@ -396,10 +417,24 @@ func (w *Health) runChecker(uniq string) {
 	defer cbmu.Unlock()
 	ss.mu.Lock()
 	defer ss.mu.Unlock()
+	if readdChanged != "" {
+		s.Violate("C16", "health_changed_without_checks", "%s", readdChanged)
+	}
+	if readdAt >= 0 {
+		// (a check that was in flight when the address left reports nothing: the callbacks no longer line up with
+		// the script, the threshold automaton is not compared in these runs)
+		w.nt = true
+		w.Stats["host_left_and_came_back"]++
+		return
+	}
 	healthy := true
 	var cf, cs uint32
 	lateDuringNext := false
+	readded := false
 	for k := 0; k < len(cbs); k++ {
+		if readdAt >= 0 && !readded && cbs[k].at > readdAt {
+			readded, cf, cs = true, 0, 0 // the first result of the new session
+		}
 		var outcome bool
 		st := hcStep{ok: true}
 		if k < len(ss.script) {
@@ -469,7 +504,7 @@ func (w *Health) runChecker(uniq string) {
 			w.Stats["health_after_stop_checked"]++
 		}
 	}
-	if len(cbs) < 2 {
+	if len(cbs) < 2 && readdAt < 0 {
 		s.Violate("C16", "checker_stalled", "only %d check results were reported in %d scripted checks' time", len(cbs), n)
 	}
 	w.nt = len(cbs) >= 2
